@@ -12,8 +12,51 @@ lean/Drv/C02.lean prints for the models `NfcVerif.Hist.historyR` / `history` / `
 
     <res> <cmds> <view> | <res> <cmds> <view> | ...
 """
-from common import hx
-from sims.c01_hist import Obj, MODES  # noqa: F401  (MODES re-exported)
+from common import hx, exc_name
+from sims.c01_hist import Obj as _Obj, MODES as _MODES, FT4
+from sims.t34_sims import T4Sim, CommandBudgetExceeded
+
+# Type 4: besides the refused UPDATE BINARY (`status`) an UPDATE BINARY that the card EXECUTES and then answers with
+# 6F00h (`late`: for the reader the command failed, for the tag it did not)
+MODES = dict(_MODES, t4=("status", "late"))
+
+
+class FT4L(FT4):
+    def apdu(self, a):
+        if getattr(self, "_fault", None) is not None and len(a) >= 5 and a[1] == 0xD6 and self.sel == self.fid:
+            k, mode = self._fault
+            if self._nw == k and mode == "late":
+                self._fault = None
+                self.triggered = True
+                sw = T4Sim.apdu(self, a)
+                return b"\x6F\x00" if sw[-2:] == b"\x90\x00" else sw
+        return FT4.apdu(self, a)
+
+
+class Obj(_Obj):
+    """the per-kind object of sims/c01_hist with the Type 4 simulator that also knows `late`"""
+
+    def __init__(self, kind, lay):
+        if kind != "t4":
+            _Obj.__init__(self, kind, lay)
+            return
+        self.kind, self.lay = kind, lay
+        self.sim = FT4L(lay.cc, lay.file, lay.mle, lay.mlc, lay.fid)
+        self.sim.begin(None)
+        self.nd = None
+        self.start = None
+        try:
+            self.tag = self.sim.activate()
+            self.nd = self.tag.ndef
+        except CommandBudgetExceeded:
+            self.start = "exc OutOfFuel"
+        except Exception as e:  # noqa
+            self.start = "exc " + exc_name(e)
+        if self.nd is None and self.start is None:
+            self.start = "none"
+        if self.nd is not None:
+            self.cap = self.nd.capacity
+            self.old = bytes(self.nd.octets)
 
 
 class HistRun(object):
